@@ -175,7 +175,18 @@ func c12RestartChild(dir string, dieAt int) int {
 			}
 			return nil
 		}
-		w := NewCW(CWOpt{Disk: true, SigMode: config.SignatureValidationModeVerify, Strict: true, Dir: dir})
+		// the restarted process hosts another validator instance (own, empty work_dir) which is provisioned first:
+		// startup cleaning is per work_dir, not once per process
+		other := NewCW(CWOpt{Disk: true, SigMode: config.SignatureValidationModeVerify})
+		defer os.RemoveAll(other.Dir)
+		if err := other.Provision(); err != nil {
+			vsched.EffectHook = nil
+			r.ProvisionErr = "other instance: " + err.Error()
+			return
+		}
+		vsched.Drain()
+		defer other.Chk.Cleanup()
+		w := NewCW(CWOpt{Disk: true, SigMode: config.SignatureValidationModeVerify, Strict: true, Dir: dir, Net: other.Net})
 		w.Net.Down(urlA)
 		w.Net.Down(urlB)
 		if err := w.Provision(); err != nil {
